@@ -152,8 +152,10 @@ def fcn_signs(prog: Program) -> dict:
 
     def core(e):
         e = origin(fi.node, e) if isinstance(e, ast.Name) else e
-        return (isinstance(e, ast.Call) and dotted(e.func) == "self._task.solve" and len(e.args) == 1
-                and isinstance(e.args[0], ast.Name) and e.args[0].id == x and not e.keywords)
+        # the sign analysis only cares about +/- of the objective value; whether it is reached through solve()
+        # (i.e. corrected first) is C05's rule
+        return (isinstance(e, ast.Call) and dotted(e.func) in ("self._task.solve", "self._task.objective_function")
+                and len(e.args) == 1 and isinstance(e.args[0], ast.Name) and e.args[0].id == x and not e.keywords)
     out, why = {}, {}
     for tt in (MIN, MAX):
         try:
